@@ -111,7 +111,9 @@ def run(ctx: Ctx) -> None:
     cfg = cfg_of(so.node)
 
     # ------------------------------------------------------------------ A: escapes of the pre-dispatch region
-    dispatch_fqs = {SERVE_UNARY, SERVE_STREAM}
+    # _discard_stream_input drains with IpcValidation.NONE under a suppress (decided in C04); the context-insensitive
+    # summary would otherwise attribute validate_batch's IPCError (impossible at level NONE) to it.
+    dispatch_fqs = {SERVE_UNARY, SERVE_STREAM, "vgi_rpc/rpc/_server.py:_discard_stream_input"}
     ea = EscapeAnalysis(ctx.repo, ctx.res, model, partial=make_partial({}), opaque=dispatch_fqs, depth=8)
     # user code is not part of this region; attach_shm lambda is resolved by hand below
     escapes = ea.escapes(so)
